@@ -1224,6 +1224,8 @@ class Engine:
         """atoms worth carrying precisely through a merge: parameters, call results, errno, addresses"""
         if a.startswith(("&", "errno#")):
             return True
+        if a in getattr(s.plugin, "pinned", ()):
+            return True              # the plugin's verdict depends on this value: a short-circuit condition merged in a phi must keep it
         c = _core(a)
         op = s.atom_op.get(c)
         if op is None:
